@@ -159,18 +159,28 @@ func resolvePath(root any, path []int) any {
 // fullDelivery caches, per (object, buffer size), what happens when the whole encoding is available at once.
 var fullDelivery = map[string]result{}
 
-// Leaf layout: leaf 0 tries every buffer size with the whole data available at once and reports the sizes that
-// fail on their own (one leaf, whatever the number of failing sizes); the other leaves are (buffer size x
-// chunking class) and are out of scope under a buffer size that already failed in leaf 0.
-func famFragmentation(x *lc) {
-	if x.o.a.rf == nil || !x.o.wbinOK {
-		x.c.Skip("type has no ReadFrom")
-		return
+// Leaf layout (one scenario per type): leaf 0 tries every buffer size with the whole data available at once, for
+// every value, and reports the sizes that fail on their own; leaves 1..3 are the chunking classes, each over every
+// value and every buffer size that did not already fail in leaf 0.
+func famFragmentation(t *lc) {
+	k := t.c.Choose(1+len(chunkClasses), "environment")
+	n := 0
+	for _, x := range t.values() {
+		if x.o.a.rf == nil || !x.o.wbinOK {
+			continue
+		}
+		n++
+		if !x.baseline(decoders[1]) {
+			continue
+		}
+		fragValue(x, k)
 	}
-	k := x.c.Choose(1+len(bufSizes)*len(chunkClasses), "environment")
-	if !x.baseline(decoders[1]) {
-		return
+	if n == 0 {
+		t.c.Skip("type has no ReadFrom")
 	}
+}
+
+func fragValue(x *lc, k int) {
 	hdr := x.header(nil)
 	run := func(path []int, bs int, ch chunking) result { return runJob(hdr, fragJob(path, bs, ch)) }
 	bad := func(r result) bool { return !r.ok() || r.VKind != "" }
@@ -227,38 +237,38 @@ func famFragmentation(x *lc) {
 			}
 		}
 		x.c.Count(len(bufSizes))
-		x.c.Outcome(x.name, "full", nbad)
+		x.c.Outcome(x.name, x.label(), "full", nbad)
 		return
 	}
-	bs := bufSizes[(k-1)/len(chunkClasses)]
-	class := chunkClasses[(k-1)%len(chunkClasses)]
-	if bad(full(bs)) {
-		x.c.Skip("this buffer size fails with the whole data available (reported by the first leaf of the scenario)")
-		return
-	}
+	class := chunkClasses[k-1]
 	x.c.Cover("frag-chunks", class)
 	chs := chunkings(class, len(x.o.wbin), x.c.Tier)
-	var jobs []job
-	for _, ch := range chs {
-		jobs = append(jobs, fragJob(nil, bs, ch))
+	for _, bs := range bufSizes {
+		if bad(full(bs)) {
+			continue // this buffer size fails with the whole data available: reported by leaf 0
+		}
+		var jobs []job
+		for _, ch := range chs {
+			jobs = append(jobs, fragJob(nil, bs, ch))
+		}
+		nbad := 0
+		for i, r := range runJobs(hdr, jobs) {
+			if r.NotRun || !bad(r) {
+				continue
+			}
+			if nbad++; nbad > 1 {
+				continue // same class, same signature: one diagnosis is enough
+			}
+			ch := chs[i]
+			// the chunking alone (default-size buffer) or only the combination?
+			env := class
+			if bs != 0 && bs != 4096 && !bad(run(nil, 4096, ch)) {
+				env = "bufio<4096+" + class
+			}
+			x.c.Fail(sig("fragmentation", culprit(bs, ch), env), "%s [%s] (%d valid bytes) read through %s with chunking %s (zero-read at %d): %s",
+				x.e.name, x.label(), len(x.o.wbin), bufName(bs), ch.name, ch.zeroAt, describe(r))
+		}
+		x.c.Count(len(jobs))
+		x.c.Outcome(x.name, x.label(), bs, class, nbad)
 	}
-	nbad := 0
-	for i, r := range runJobs(hdr, jobs) {
-		if r.NotRun || !bad(r) {
-			continue
-		}
-		if nbad++; nbad > 1 {
-			continue // same class, same signature: one diagnosis is enough
-		}
-		ch := chs[i]
-		// the chunking alone (default-size buffer) or only the combination?
-		env := class
-		if bs != 0 && bs != 4096 && !bad(run(nil, 4096, ch)) {
-			env = "bufio<4096+" + class
-		}
-		x.c.Fail(sig("fragmentation", culprit(bs, ch), env), "%s [%s] (%d valid bytes) read through %s with chunking %s (zero-read at %d): %s",
-			x.e.name, x.label(), len(x.o.wbin), bufName(bs), ch.name, ch.zeroAt, describe(r))
-	}
-	x.c.Count(len(jobs))
-	x.c.Outcome(x.name, bs, class, nbad)
 }
